@@ -156,6 +156,9 @@ def gen_module(rng, uid, name, knobs, other_modules=()):
         if rng.random() < knobs.get("p_operator", 0.0):
             gname = rng.choice(["operator(<)", "operator(>)", "operator(/)", "operator(*)", "operator(==)",
                                 "operator(.dot.)", "assignment(=)", "operator(<=)", "operator(//)"])
+            if rng.random() < knobs.get("p_blank_in_generic", 0.0):
+                # blanks are not significant in a generic identifier: "operator (+)" is "operator(+)"
+                gname = gname.replace("(", rng.choice([" (", "  (", "( "]), 1)
         interfaces.append({"uid": iu, "kind": "generic", "name": gname,
                            "procs": rng.sample(pnames, rng.choice([1, min(2, len(pnames))])),
                            "perm": None, "doc": mk_doc(rng, iu)})
